@@ -25,7 +25,7 @@ VARIABLE v
 (***************************************************************************)
 (* Field classes.                                                          *)
 (***************************************************************************)
-Accts   == {"<acct.plain>", "<acct.special>", "<acct.unicode>", "<acct.digits>"}
+Accts   == {"<acct.plain>", "<acct.special>", "<acct.unicode>", "<acct.digits>", "<acct.caps>", "<acct.keyword>"}
 Addrs   == {"<addr.v4>", "<addr.v6>", "<addr.v6zone>"}
 Hosts   == Addrs \cup {"<host.name>"}
 Ports   == {"0", "22", "65535", "<port.rand>"}
@@ -44,6 +44,7 @@ Reasons == {"<reason.plain>", "<reason.colon>", "<reason.long>"}
 Hostile == {"<evil.space>", "<evil.fromport>", "<evil.fromportssh>", "<evil.words>", "<evil.long>",
             "<evil.trailfrom>", "<evil.quote>", "<evil.preauth>", "<evil.dict>", "<evil.form>", "<evil.empty>"}
 
+Kid0 == "<kid.email>"   Pa0 == "<path.plain>"   D0 == "<dns.plain>"
 A0 == "<acct.plain>"   K0 == "ED25519"   F0 == <<"SHA256", "<fp.b64>">>
 H0 == "<addr.v4>"      P0 == "<port.rand>"
 
@@ -205,6 +206,14 @@ VAccepted ==
         pw == PeerAxes(AccPw)
     IN key \cup cert \cup pad \cup pw
 
+\* accepted logins with PID tokens that are positive decimal numerals of unusual shape (C05): the forwarded
+\* process ID is the numeral's value, the event carries the token as written
+GoodPids == {"<pid.pos>", "<pid.one>", "<pid.lead0>", "<pid.max>", "<pid.oct8>"}
+VAcceptedPids ==
+    {[x EXCEPT !.pidtok = t] : t \in GoodPids,
+       x \in {AccKey(A0, H0, P0, K0, F0), AccCert(A0, H0, P0, K0, F0, Kid0, "0", "RSA", F0),
+              AccPad(A0, H0, P0, K0, F0, " and stuff"), AccPw(A0, H0, P0)}}
+
 VFailed ==
     LET certinv == {CertInvalid(r) : r \in Reasons} \cup {CertInvalidEmpty}
         inv == PeerAxes(InvalidUser)
@@ -237,7 +246,6 @@ Noise   == {"<noise.nul>", "<noise.quote>", "<noise.badutf8>", "<noise.huge>", "
 PidToks == {"<pid.pos>", "<pid.one>", "<pid.zero>", "<pid.neg>", "<pid.plus>", "<pid.alpha>", "<pid.huge>",
             "<pid.empty>", "<pid.hex>", "<pid.lead0>"}
 
-Kid0 == "<kid.email>"   Pa0 == "<path.plain>"   D0 == "<dns.plain>"
 
 Baseline ==
     {AccKey(A0, H0, P0, K0, F0), AccCert(A0, H0, P0, K0, F0, Kid0, "0", "RSA", F0),
@@ -316,7 +324,7 @@ VPids ==
         : b \in Baseline, t \in PidToks}
 
 Vectors ==
-    (IF "accepted" \in Families THEN VAccepted ELSE {})
+    (IF "accepted" \in Families THEN VAccepted \cup VAcceptedPids ELSE {})
     \cup (IF "failed" \in Families THEN VFailed ELSE {})
     \cup (IF "hostile" \in Families THEN {[x EXCEPT !.fam = "hostile"] : x \in VHostile} ELSE {})
     \cup (IF "mutants" \in Families THEN VMutants ELSE {})
